@@ -226,6 +226,26 @@ var c20Ops = map[string]c20OpSpec{
 		}
 		return err
 	}},
+	// the first stream request is answered ROLLBACK (scripted), the library reads the failover log and asks again: the
+	// generated behaviour applies to that SECOND request - its outcome is the outcome of OpenStream
+	"OpenStreamAfterRollback": {cmds: []memd.CmdCode{memd.CmdDcpStreamReq}, hardMs: 60000, run: func(e *lbEnv, ctx context.Context, sc c20Wire) error {
+		n := 0
+		e.c.Lock()
+		e.c.OnStreamReq = func(r simnode.StreamReq) simnode.StreamReply {
+			n++
+			if n == 1 {
+				return simnode.StreamReply{Status: memd.StatusRollback, RollbackTo: 0}
+			}
+			return simnode.StreamReply{Status: memd.StatusSuccess}
+		}
+		e.c.Unlock()
+		obs := couchbase.NewObserver(e.cfg, 11, ^uint64(0), func(models.ListenerArgs) {}, func(models.DcpStreamEndContext) {}, map[uint32]string{}, tracing.NewTracerComponent())
+		err := e.client.OpenStream(11, map[uint32]string{}, &models.Offset{SnapshotMarker: &models.SnapshotMarker{StartSeqNo: 5, EndSeqNo: 5}, SeqNo: 5, VbUUID: 77, LatestSeqNo: ^uint64(0)}, obs)
+		if err == nil {
+			_ = e.client.CloseStream(11)
+		}
+		return err
+	}},
 	"CloseStream": {cmds: []memd.CmdCode{memd.CmdDcpCloseStream}, hardMs: 60000, run: func(e *lbEnv, ctx context.Context, sc c20Wire) error {
 		obs := couchbase.NewObserver(e.cfg, 10, ^uint64(0), func(models.ListenerArgs) {}, func(models.DcpStreamEndContext) {}, map[uint32]string{}, tracing.NewTracerComponent())
 		if err := e.client.OpenStream(10, map[uint32]string{}, &models.Offset{SnapshotMarker: &models.SnapshotMarker{}, LatestSeqNo: ^uint64(0)}, obs); err != nil {
@@ -445,7 +465,10 @@ func TestC20_Wire(t *testing.T) {
 			sc.OnlyNth = rapid.IntRange(0, 3).Draw(rt, "nth")
 		}
 		sc.PreExist = rapid.Bool().Draw(rt, "pre")
-		if spec.hardMs > 0 && sc.Behave == "drop" {
+		if sc.Op == "OpenStreamAfterRollback" {
+			sc.OnlyNth = 2
+		}
+		if spec.hardMs > 0 && sc.Behave == "drop" && sc.Op != "OpenStreamAfterRollback" {
 			sc.OnlyNth = 1 // a node that drops every retry until a 60 s deadline is a thorough-tier class
 		}
 		if sc.Behave == "status" && sc.Status == int(memd.StatusKeyNotFound) && (sc.Op == "MetadataSave" || sc.Op == "CloseStream") {
